@@ -1,4 +1,5 @@
 import Gmx.Model.FixedStr
+import Gmx.Model.RoleNames
 import Gmx.Driver.Util
 import Gmx.Driver.HexUtil
 -- ENGINE fstr fstrEngine stateless
@@ -13,8 +14,8 @@ def showFs : Except Err (List Nat) → String
   | .error .utf8 => "err Utf8"
   | .error .panic => "panic"
 
-def fstrEngine (args : List String) : String :=
-  match args with
+def fstrEngine3 (op l n : String) : String :=
+  match [op, l, n] with
   | ["tobytes", l, n] =>
     match pNat l, pHex n with
     | some l, some n => if utf8Valid n then showFs (toBytes l n) else "bad-op"
@@ -32,6 +33,27 @@ def fstrEngine (args : List String) : String :=
         | e => "w" ++ showFs e
       else "bad-op"
     | _, _ => "bad-op"
+  | _ => "bad-op"
+
+
+def showW : Except Gmx.RoleNames.WErr (List Nat) → String
+  | .ok b => s!"ok {showHex b}"
+  | .error .exceedMax => "err ExceedMaxLengthLimit"
+  | .error .invalidArgument => "err InvalidArgument"
+
+def fstrEngine (args : List String) : String :=
+  match args with
+  | ["rolescn", n] =>
+    match pHex n with
+    | some n => if utf8Valid n then joinSp (Gmx.RoleNames.scenario n) else "bad-op"
+    | none => "bad-op"
+  | [op, l, n] =>
+    if op.startsWith "w." then
+      -- program-side wrappers: write then read through the store's error mapping
+      match pNat l, pHex n with
+      | some l, some n => if utf8Valid n then showW (Gmx.RoleNames.wrappedRoundtrip l n) else "bad-op"
+      | _, _ => "bad-op"
+    else fstrEngine3 op l n
   | _ => "bad-op"
 
 end Gmx.Drv
